@@ -128,8 +128,8 @@ theorem admit_sound {w : World} {lo : Nat} {k : Str} {st : HState} {r : RState} 
     (nd : st.md ∉ cellsHV st.data ∧ st.md ∉ cellsVars (w.heap.metaAt st.md).vars)
     (hk : ∃ absolute acts m, P acts ∧ keyOf absolute acts = k ∧ refChain d m acts = some r)
     (hok : ok = true → r.volatile = false ∧ r.caching = true) :
-    SoundW d P (admit w k st ok) ∧ Agrees (admit w k st ok).heap st r := by
-  unfold admit
+    SoundW d P (admitTo w k st ok) ∧ Agrees (admitTo w k st ok).heap st r := by
+  unfold admitTo
   split
   · rename_i h
     exact store_sound sw i o ag nd hk (hok h).1 (hok h).2
